@@ -1275,6 +1275,16 @@ def _g_tcpopts(r, hostile):
 
 
 def _g_tcp(r, hostile):
+  if r.chance(0.15):
+    # a bare segment whose header ends flush in a two-byte option (length
+    # byte 2, nothing behind it: no value, no padding, no payload)
+    kind = r.pick([4, 30, 30, 30, 2, 3, 5, 8, 99, 254, r.randrange(2, 256)])
+    pre = r.pick([b"\x01\x01", b"\x02\x04\x05\xb4\x01\x01",
+                  b"\x01\x01\x01\x01\x01\x01"])
+    opts = pre + bytes([kind, 2])
+    if r.chance(0.3):
+      return _e6(6, _tcp6(opts, payload=b""))
+    return _eip(6, _tcp(opts, payload=b"", flags=r.pick([0x02, 0x10, 0x12])))
   if r.chance(0.3):
     return _e6(6, _tcp6(_g_tcpopts(r, hostile)))
   return _eip(6, _tcp(_g_tcpopts(r, hostile),
